@@ -363,6 +363,75 @@ func runC25(rc *RunCtx, i int) {
 			}
 		}
 	}
+	// shared operands: a base expression grown incrementally (so its Children slice may carry
+	// spare capacity) is used as an operand of several later trees and builder chains; every tree
+	// must keep meaning what was written when it was built, also after the later ones exist
+	sr := r.Split("shared")
+	for k := 0; k < 3; k++ {
+		rc.Res.Count("trees", 1)
+		var parts []*ast
+		e0, a0 := genBloom(sr, facts, 1)
+		parts = append(parts, a0)
+		and := sr.Bool()
+		base := e0
+		for g := sr.Range(1, 4); g > 0; g-- {
+			e1, a1 := genBloom(sr, facts, 1)
+			parts = append(parts, a1)
+			if and {
+				base = bs.And(base, e1)
+			} else {
+				base = bs.Or(base, e1)
+			}
+		}
+		baseAst := &ast{Op: map[bool]string{true: "and", false: "or"}[and], Kids: parts}
+		type built struct {
+			q    *bs.Query
+			a    *ast
+			json string
+			want map[string]int
+		}
+		var all []*built
+		for u := sr.Range(2, 4); u > 0; u-- {
+			ex, ax := genBloom(sr, facts, 1)
+			var q *bs.Query
+			var a *ast
+			switch sr.Intn(3) {
+			case 0:
+				if and {
+					q = bs.NewQuery().Match(bs.And(base, ex)).Build()
+				} else {
+					q = bs.NewQuery().Match(bs.Or(base, ex)).Build()
+				}
+				a = &ast{Op: baseAst.Op, Kids: []*ast{baseAst, ax}}
+			case 1:
+				q = bs.NewQuery().Match(bs.And(base, ex)).Build()
+				a = &ast{Op: "and", Kids: []*ast{baseAst, ax}}
+			default:
+				leaf := facts.BloomLeaf(sr)
+				for leaf.Condition == nil || leaf.Condition.Type != bs.BloomToken {
+					leaf = bs.Token(core.Pick(sr, append([]string{"x"}, facts.Tokens...)))
+				}
+				q = bs.NewQuery().Match(base).Token(leaf.Condition.Token).Build()
+				lc := leaf
+				a = &ast{Op: "and", Kids: []*ast{baseAst, {Op: "leaf", B: &lc}}}
+			}
+			b := &built{q: q, a: a, json: queryJSON(q)}
+			b.want = vidSetOfRecs(recs, func(rec *world.RowRec) bool {
+				return b.a.eval(func(l *ast) bool { return rec.View.MatchBloom(l.B) })
+			})
+			all = append(all, b)
+		}
+		for _, b := range all {
+			if j := queryJSON(b.q); j != b.json {
+				rc.Violate(i, "tree-changed-after-construction", "", "a Query's expression changed after another expression sharing one of its operands was built", map[string]any{"when_built": b.json, "now": j, "ast": b.a.String()})
+				break
+			}
+			if !c25Compare(rc, i, d, "bloom(shared operand)", b.a, b.q, b.want, run) {
+				break
+			}
+		}
+		rc.Res.Count("shared_operand_groups", 1)
+	}
 	// whole-Query round trip
 	qr := r.Split("q")
 	for k := 0; k < 6; k++ {
